@@ -210,12 +210,14 @@ def ps5(ctx):
         tgt = arms[arm][1]
         region = b.reach([tgt])
         exits = [e['point'] for e in b.ok_exits() if e['point'] in region]
-        fl_s = [p for p in ctx.E.must_sites(b, 'FLUSH') if p in region]
-        fs_s = [p for (p, e, cs) in ctx.E.direct_sites(b) if e == 'FSYNC' and p in region]
-        ds_s = [p for p in ctx.E.must_sites(b, 'DIRSYNC') if p in region]
+        # sites inside the arm, or before the switch (dominating the arm)
+        fl_s = [p for p in ctx.E.must_sites(b, 'FLUSH') if p in region or b.dominates(p, tgt)]
+        fs_s = [p for (p, e, cs) in ctx.E.direct_sites(b) if e == 'FSYNC' and (p in region or b.dominates(p, tgt))]
+        ds_s = [p for p in ctx.E.must_sites(b, 'DIRSYNC') if p in region or b.dominates(p, tgt)]
 
         def dom_all(sites, targets):
-            return bool(sites) and all(any(p == t or (t in b.reach_after(p) and t not in b.reach([tgt], avoid=[p])) for p in sites) for t in targets)
+            # every path from the function entry that enters this arm and reaches t passes one of the sites
+            return bool(sites) and all(any(p == t or b.dominates(p, t) or (t in b.reach_after(p) and t not in b.reach([tgt], avoid=[p])) for p in sites) for t in targets)
         if arm == 'Flush':
             ok = dom_all(fl_s, exits)
             ctx.check(ok, 'arm:Flush', where(b, tgt), 'Flush arm: flush dominates Ok', 'persist(Flush) can return Ok without flushing the BufWriter')
@@ -227,7 +229,7 @@ def ps5(ctx):
             same = False
             fl = flow_of(b)
             for (p, e, cs) in ctx.E.direct_sites(b):
-                if e == 'FSYNC' and p in region:
+                if e == 'FSYNC' and p in fs_s:
                     back = fl.backward(set(fl.op_nodes(cs.args[0])))
                     if ('m', 'RollingWriter.file') in back:
                         same = True
